@@ -93,7 +93,14 @@ def decisions(ctx: Ctx, fi: FunctionInfo, opaque: Optional[Callable[[ast.AST], b
 def check_table(decs: Sequence[Decision], atoms: Sequence[str], spec: Callable[[Dict[str, bool]], Any], outcome: Callable[[Decision], Any],
                 dont_care: Iterable[str] = ()) -> Tuple[List[str], List[str]]:
     """Returns (violations, unknowns).  *atoms* are canonical keys; spec(total assignment) -> expected outcome or IGNORE."""
+    given = list(atoms)
     atoms = [key(a) for a in atoms]
+    back = dict(zip(atoms, given))
+    _spec = spec
+
+    def spec(total):  # the specification sees the atoms under the spelling it was given
+        return _spec({back[k]: v for k, v in total.items()})
+
     dont_care = {key(a) for a in dont_care}
     violations: List[str] = []
     unknowns: List[str] = []
@@ -139,3 +146,37 @@ def judge_table(ctx: Ctx, rule: str, fi: FunctionInfo, construct: str, decs, ato
         raise AnalysisError(f"{fi.fq}: {construct}: " + u[0])
     else:
         ctx.ok(rule, fi, construct, f"{len(decs)} paths", node=node or fi.node)
+
+
+def symbolic_return(d: Decision) -> Optional[ast.expr]:
+    """The returned expression of a path with the straight-line assignments along the path substituted in
+    (x = E; x += F; return x  ->  E + F)."""
+    import copy
+    env: Dict[str, ast.expr] = {}
+
+    class S(ast.NodeTransformer):
+        def visit_Name(self, n):
+            if isinstance(n.ctx, ast.Load) and n.id in env:
+                return copy.deepcopy(env[n.id])
+            return n
+
+        def visit_Lambda(self, n):
+            return n
+
+    def sub(e):
+        return S().visit(copy.deepcopy(e))
+
+    for n in d.nodes:
+        node = d.cfg.nodes[n]
+        st = node.ast
+        if node.kind == "stmt":
+            if isinstance(st, ast.Assign) and len(st.targets) == 1 and isinstance(st.targets[0], ast.Name):
+                env[st.targets[0].id] = sub(st.value)
+            elif isinstance(st, ast.AnnAssign) and isinstance(st.target, ast.Name) and st.value is not None:
+                env[st.target.id] = sub(st.value)
+            elif isinstance(st, ast.AugAssign) and isinstance(st.target, ast.Name):
+                left = env.get(st.target.id, ast.Name(id=st.target.id, ctx=ast.Load()))
+                env[st.target.id] = ast.BinOp(left=left, op=st.op, right=sub(st.value))
+        elif node.kind == "return":
+            return sub(st.value) if st.value is not None else None
+    return None
